@@ -245,6 +245,13 @@ var c05Goals = []string{"true", "fail", "X = Y", "atom ( X )", "X is 1 + 2", "at
 	"''", "'' ( a )", "X is '' + 1", "X is - ''", "write ( a = '' )", "write ( '' / 0 )", "print ( - '' )", "X = '' / 0", "atom_length ( '' , N )",
 	"catch ( '' , E , true )", "atom_to_term ( '' , T , B )", "X = [ '' :- '' ]", "write_canonical ( [ '' , ! , ; , '|' , {} ] )",
 	"'\\\\' ( a )", "X = 'hello_World' ( '' )", "dynamic ( '' / 0 )", "assertz ( '' )", "assertz ( '' ( '' ) )",
+	// lists / compounds holding variables bound by an earlier goal of the conjunction, the result traversed afterwards
+	"T = [ b ] , append ( [ a | T ] , [ c ] , Z )", "T = [ b ] , append ( [ a | T ] , [ c ] , Z ) , length ( Z , N )",
+	"T = [ b | U ] , U = [ c ] , append ( [ a | T ] , Y , Z ) , Y = [ d ] , sort ( Z , S )", "T = \"bc\" , atom_chars ( A , [ a | T ] )",
+	"T = [ ] , append ( [ a | T ] , [ c ] , Z ) , Z =.. L", "E = b , sort ( [ c , E , a ] , L ) , atom_chars ( A , L )", "T = [ 2 ] , length ( [ 1 | T ] , N )",
+	"V = g ( x ) , X = f ( V ) , X =.. L , copy_term ( X , C )", "T = [ b ] , findall ( Z , append ( [ a | T ] , [ c ] , Z ) , L )",
+	"assertz ( ( q ( X , Z ) :- append ( [ a | X ] , [ c ] , Z ) , length ( Z , _ ) ) ) , q ( [ b ] , R )",
+	"T = [ b ] , append ( X , [ c ] , [ a | T ] )", "T = [ b - 2 ] , keysort ( [ a - 1 | T ] , L )", "T = [ b ] , nth0 ( 1 , [ a | T ] , E )", "T = [ b ] , member ( M , [ a | T ] )",
 	// enumeration up to a boundary integer, exhausted
 	"between ( 9223372036854775806 , 9223372036854775807 , X )", "findall ( X , between ( 9223372036854775806 , 9223372036854775807 , X ) , L )",
 	"\\+ call ( ( between ( 9223372036854775807 , 9223372036854775807 , X ) , X < 0 ) )", "length ( L , 0 )", "succ ( X , 9223372036854775807 )"}
@@ -510,6 +517,21 @@ func runC05Text(payload string) string {
 						m := map[string]interface{}{}
 						_ = sols.Scan(m)
 						_ = fmt.Sprintf("%v %+v", m, m)
+					}))
+					// every other destination type Scan supports (a value that does not fit is a conversion error)
+					note(hostDo("Solutions.Scan(map[string][]interface{})", func() { _ = sols.Scan(map[string][]interface{}{}) }))
+					note(hostDo("Solutions.Scan(map[string][]string)", func() { _ = sols.Scan(map[string][]string{}) }))
+					note(hostDo("Solutions.Scan(map[string][]int)", func() { _ = sols.Scan(map[string][]int{}) }))
+					note(hostDo("Solutions.Scan(map[string]string)", func() { _ = sols.Scan(map[string]string{}) }))
+					note(hostDo("Solutions.Scan(map[string]int64)", func() { _ = sols.Scan(map[string]int64{}) }))
+					note(hostDo("Solutions.Scan(map[string]float64)", func() { _ = sols.Scan(map[string]float64{}) }))
+					note(hostDo("Solutions.Scan(map[string]engine.Term)", func() {
+						m := map[string]engine.Term{}
+						_ = sols.Scan(m)
+						for _, t := range m {
+							var ts prolog.TermString
+							_ = ts.Scan(&i.VM, t, nil)
+						}
 					}))
 				}
 			}
